@@ -539,6 +539,14 @@ Judge(s, e) ==
     [] e.ev = "q_rsim" -> JudgeRsim(s, e)
     [] e.ev = "q_pages" -> JudgePages(e)
     [] e.ev = "advance" -> JudgeAdvance(s, e, e.post)
+    \* the v1.2.0 -> v1.3.0 upgrade of a deployment with legacy records: no token moves, every reserve keeps its denom and amount
+    [] e.ev = "pm_upgrade" -> [ M_upgrade_of_legacy_records_succeeds |-> Must(e.ok),
+                                S_upgrade_moves_nothing |-> G(e.ok, /\ e.post.bal = s.bal /\ e.post.supply = s.supply
+                                                                   /\ DOMAIN Pools(e.post) = DOMAIN Pools(s)
+                                                                   /\ \A q \in DOMAIN Pools(s) : LET a == Pools(s)[q] b == Pools(e.post)[q] IN
+                                                                        /\ b.denoms = a.denoms /\ b.dec = a.dec /\ b.supply = a.supply /\ b.fee = a.fee
+                                                                        /\ \A d \in SeqSet(a.adenoms) : \E i \in DOMAIN a.adenoms, j \in DOMAIN b.adenoms :
+                                                                               a.adenoms[i] = d /\ b.adenoms[j] = d /\ a.res[i] = b.res[j]) ]
     [] e.ev = "fm_direct" -> [ C10_direct_close_only_touches_the_position |->
                                 Must(Pools(e.post) = Pools(s) /\ e.post.bal = s.bal /\ e.post.supply = s.supply) ]   \* a close in the farm manager moves no money
     [] e.ev = "donate" -> JudgeDonate(s, e, e.post)
@@ -577,7 +585,7 @@ Step == /\ l <= Len(Rec)
         /\ LET e == Rec[l]
                gs == IF broken /\ e.ev # "reset" THEN NoGuards
                      ELSE IF Malformed(e) THEN [ C16_pool_records_keep_their_shape |-> Must(FALSE) ]
-                     ELSE Judge(st, e) @@ (IF e.ev = "reset" \/ ~HasPost(e) THEN NoGuards ELSE Invariants(st, e, e.post) @@ ModelGuards(e, e.post))
+                     ELSE Judge(st, e) @@ (IF e.ev \in {"reset", "pm_upgrade"} \/ ~HasPost(e) THEN NoGuards ELSE Invariants(st, e, e.post) @@ ModelGuards(e, e.post))
            IN /\ Report(e.i, e.sc, gs)
               /\ cnt' = Count(cnt, gs)
               /\ st' = IF HasPost(e) THEN e.post ELSE st
